@@ -763,6 +763,7 @@ nist_mul_case(const impl_t *im, curve_t *c, const unsigned char *pbuf, const EC_
 			return;
 		}
 		vf_stat("cmp_mul", 1);
+		if (!strncmp(cls, "ext-", 4)) vf_stat("cmp_mul_extreme_point", 1);
 		if (r != 1) {
 			VIOL(mkkey("mul-valid-rejected", im, c->name), "mul() on a valid point and in-range scalar did not return 1",
 				"seed=%lld i=%lld cls=%s ret=%u P=%s k=%s", g_seed, idx, cls, r, vf_hexs(pbuf, c->ptlen), vf_hexs(kb, kl));
@@ -818,6 +819,7 @@ nist_muladd_case(const impl_t *im, curve_t *c, const unsigned char *abuf, const 
 		return;
 	}
 	vf_stat("cmp_muladd", 1);
+	if (!strncmp(cls, "ext-", 4)) vf_stat("cmp_muladd_extreme_point", 1);
 	if (!rok) {
 		vf_stat("cmp_muladd_must_fail", 1);
 		if (r != 0) {
@@ -1042,6 +1044,105 @@ special_scalar(BIGNUM *k, const curve_t *c, long long idx, char *cls, size_t cle
 	return 0;
 }
 
+/* valid points with extreme coordinates: x in {0..64}, {p-1..p-64}, 2^E + k and 2^E - k for the exponents E
+ * at which the field prime has its terms (P-256: 224, 192, 96; P-384: 128, 96, 32; P-521: 512, 256, 64) -
+ * whichever of those x have a y (GMP square root; the encoding is then checked by OpenSSL's on-curve test).
+ * Quick tier: the first 2 / 1 on-curve values of each class; thorough: the first 16 / 6. */
+typedef struct { unsigned char buf[140]; char cls[28]; } extpt;
+static extpt ext_pts[1200];
+static int n_ext;
+
+static int
+ext_try(const curve_t *c, const mpz_t x, const char *cls)
+{
+	mpz_t r, y;
+	int ok = 0;
+	if (mpz_sgn(x) < 0 || mpz_cmp(x, c->zp) >= 0 || n_ext >= (int)(sizeof ext_pts / sizeof ext_pts[0])) return 0;
+	mpz_init(r); mpz_init(y);
+	mpz_powm_ui(r, x, 3, c->zp);
+	mpz_submul_ui(r, x, 3);
+	mpz_add(r, r, c->zb);
+	mpz_mod(r, r, c->zp);
+	if (mpz_sgn(r) != 0 && mpz_legendre(r, c->zp) == 1) {
+		extpt *e = &ext_pts[n_ext];
+		EC_POINT *P;
+		mpz_powm(y, r, c->zsq, c->zp);
+		if (n_ext & 1) mpz_sub(y, c->zp, y);
+		e->buf[0] = 0x04;
+		mpz2pad(e->buf + 1, c->plen, x);
+		mpz2pad(e->buf + 1 + c->plen, c->plen, y);
+		P = pt_decode(c, e->buf, c->ptlen);
+		HASSERT(P != NULL, "ext-point-not-on-curve");
+		EC_POINT_free(P);
+		snprintf(e->cls, sizeof e->cls, "%s", cls);
+		n_ext ++;
+		ok = 1;
+	}
+	mpz_clear(r); mpz_clear(y);
+	return ok;
+}
+
+static void
+ext_build(const curve_t *c)
+{
+	static const int EXPS[3][3] = { { 224, 192, 96 }, { 128, 96, 32 }, { 512, 256, 64 } };
+	int ci = (int)(c - curves), e, k, got;
+	int q2 = g_thorough ? 16 : 2, q1 = g_thorough ? 6 : 1;
+	mpz_t x;
+	char cls[28];
+	mpz_init(x);
+	n_ext = 0;
+	for (k = 0, got = 0; k <= 64 && got < q2; k ++) { mpz_set_ui(x, (unsigned long)k); got += ext_try(c, x, "ext-small"); }
+	for (k = 1, got = 0; k <= 64 && got < q2; k ++) { mpz_sub_ui(x, c->zp, (unsigned long)k); got += ext_try(c, x, "ext-p-k"); }
+	for (e = 0; e < 3; e ++) {
+		snprintf(cls, sizeof cls, "ext-2^%d+k", EXPS[ci][e]);
+		for (k = 0, got = 0; k <= 32 && got < q1; k ++) {
+			mpz_set_ui(x, 1); mpz_mul_2exp(x, x, (mp_bitcnt_t)EXPS[ci][e]); mpz_add_ui(x, x, (unsigned long)k);
+			got += ext_try(c, x, cls);
+		}
+		snprintf(cls, sizeof cls, "ext-2^%d-k", EXPS[ci][e]);
+		for (k = 1, got = 0; k <= 32 && got < q1; k ++) {
+			mpz_set_ui(x, 1); mpz_mul_2exp(x, x, (mp_bitcnt_t)EXPS[ci][e]); mpz_sub_ui(x, x, (unsigned long)k);
+			got += ext_try(c, x, cls);
+		}
+	}
+	mpz_clear(x);
+}
+
+static void
+ext_case(const impl_t *im, curve_t *c, int e, long long idx)
+{
+	const extpt *ep = &ext_pts[e], *en = &ext_pts[(e + 1) % n_ext];
+	EC_POINT *P = pt_decode(c, ep->buf, c->ptlen), *N = pt_decode(c, en->buf, c->ptlen), *Q = NULL;
+	BIGNUM *S[4], *t = BN_new(), *u = BN_new();
+	unsigned char qbuf[140];
+	int j, rot = e & 3, nrun = g_thorough ? 2 : 1;
+	HASSERT(P != NULL && N != NULL, "ext-decode");
+	for (j = 0; j < 4; j ++) S[j] = BN_new();
+	BN_one(S[0]); BN_set_word(S[1], 2);
+	BN_copy(S[2], c->n); BN_sub_word(S[2], 1);
+	rand_scalar(S[3], c);
+	vf_distinct("ext_point", "%s %s", c->name, vf_hexs(ep->buf + 1, c->plen));
+	for (j = 0; j < nrun; j ++) {
+		int a = (rot + j) & 3;
+		/* the point as the operand of mul, as A and as B of muladd */
+		nist_mul_case(im, c, ep->buf, P, S[a], j ? pick_kind() : 0, ep->cls, idx);
+		nist_mul_case(im, c, ep->buf, P, S[(a + 2) & 3], 1, ep->cls, idx);
+		rand_scalar(t, c);
+		nist_muladd_case(im, c, ep->buf, P, NULL, NULL, S[(a + 1) & 3], t, ep->cls, idx);
+		rand_point(c, qbuf, &Q);
+		rand_scalar(t, c);
+		nist_muladd_case(im, c, qbuf, Q, ep->buf, P, t, S[(a + 3) & 3], ep->cls, idx);
+		EC_POINT_free(Q); Q = NULL;
+		/* two extreme points */
+		rand_scalar(t, c); rand_scalar(u, c);
+		nist_muladd_case(im, c, ep->buf, P, en->buf, N, j ? t : S[a], u, ep->cls, idx);
+	}
+	for (j = 0; j < 4; j ++) BN_free(S[j]);
+	BN_free(t); BN_free(u);
+	EC_POINT_free(P); EC_POINT_free(N);
+}
+
 static void
 arith_nist(const impl_t *im, curve_t *c, long long cases)
 {
@@ -1169,6 +1270,16 @@ arith_nist(const impl_t *im, curve_t *c, long long cases)
 		}
 		if (P) EC_POINT_free(P);
 		if (Q) EC_POINT_free(Q);
+	}
+	/* points with extreme coordinates (numbered after the cases above) */
+	ext_build(c);
+	HASSERT(n_ext >= 6, "ext-too-few-points");
+	for (i = 0; i < n_ext; i ++) {
+		long long idx = nspecial + cases + i;
+		if ((idx % g_nworkers) != g_worker) continue;
+		rng_case("arith-ext", im->name, c->name, i);
+		vf_stat("cases", 1);
+		ext_case(im, c, (int)i, idx);
 	}
 	BN_free(k); BN_free(x); BN_free(y); BN_free(t);
 }
@@ -1830,6 +1941,53 @@ ecdsa_kat(ecdsa_env *E)
 			VIOL(mkkey2("kat-rfc6979", E->sup[i], &ecdsas[e], "P256"), "RFC 6979 A.2.5 vector not reproduced", "got=%s", vf_hexs(sig, 64));
 		}
 	}
+	/*
+	 * The retry step of RFC 6979 3.2.h (first candidate k not below the order: K = HMAC_K(V || 0x00), V = HMAC_K(V),
+	 * next candidate).  For P-256 a candidate is >= n with probability 2^-32; this (key, hash value) pair was found by
+	 * an offline search over 2^32 hash values (first candidate ffffffff98425466...).  The expected signature was
+	 * computed with mbedTLS 2.28 mbedtls_ecdsa_sign_det_ext(); the reference generator of this harness must agree
+	 * with it and must have taken the retry branch.
+	 */
+	{
+		static const char *xr = "3c18293a4b5c6d7e8fa0b1c2d3e4f5061728394a5b6c7d8e9fb0c1d2e3f40516";
+		static const char *hr = "42070000000000000000000000000000000000000000000050031e3c00000000";
+		static const char *rr = "A9A8196BC52CF27743A9A0107AFA41B1BC0A5E314332F4C3CC11A17CDEE704F5";
+		static const char *sr = "161CEAAE7BF8D4A3CEB5CDC0AF7DBA5100AD2328F09E085A659FA4BD03EA8CE5";
+		BIGNUM *d = BN_new(), *k = BN_new(), *r = BN_new(), *s = BN_new();
+		unsigned char rs[64];
+		int e2;
+		vf_unhex(x, 32, xr); vf_unhex(hv, 32, hr); vf_unhex(want, 32, rr); vf_unhex(want + 32, 32, sr);
+		BN_bin2bn(x, 32, d);
+		{
+			/* the first candidate, computed without the loop, is not below n */
+			unsigned char V[32], K[32], buf[32 + 1 + 64];
+			BIGNUM *k0 = BN_new();
+			memset(V, 1, 32); memset(K, 0, 32);
+			memcpy(buf, V, 32); buf[32] = 0; memcpy(buf + 33, x, 32); memcpy(buf + 65, hv, 32);
+			hmac1(EVP_sha256(), K, 32, buf, 97, K); hmac1(EVP_sha256(), K, 32, V, 32, V);
+			memcpy(buf, V, 32); buf[32] = 1;
+			hmac1(EVP_sha256(), K, 32, buf, 97, K); hmac1(EVP_sha256(), K, 32, V, 32, V);
+			hmac1(EVP_sha256(), K, 32, V, 32, V);
+			BN_bin2bn(V, 32, k0);
+			HASSERT(BN_cmp(k0, E->c->n) >= 0, "retry-vector-first-candidate-in-range");
+			BN_free(k0);
+		}
+		ref_rfc6979_k(k, E->c, d, 2, hv);
+		HASSERT(ref_sign_k(E->c, r, s, d, k, hv, 32), "retry-kat-refsign");
+		enc_raw(rs, r, s, 32);
+		HASSERT(memcmp(rs, want, 64) == 0, "rfc6979-retry-vector-vs-reference");
+		for (i = 0; i < E->nsup; i ++) for (e2 = 0; e2 < 4; e2 += 2) {
+			size_t sl = call_sign(E->sup[i], &ecdsas[e2], 2, hv, BR_EC_secp256r1, x, 32, sig, 64);
+			vf_stat("cmp_kat", 1);
+			vf_stat("cmp_kat_rfc6979_retry", 1);
+			if (sl != 64 || memcmp(sig, want, 64) != 0) {
+				VIOL(mkkey2("kat-rfc6979-retry", E->sup[i], &ecdsas[e2], "P256"),
+					"signature for a (key, hash) pair whose first RFC 6979 candidate is >= n differs from the value of RFC 6979 3.2.h (mbedTLS)",
+					"x=%s hv=%s hash=sha256 got=%s want=%s", xr, hr, vf_hexs(sig, 64), vf_hexs(want, 64));
+			}
+		}
+		BN_free(d); BN_free(k); BN_free(r); BN_free(s);
+	}
 }
 
 static void
@@ -2045,6 +2203,73 @@ ecdsa_case(ecdsa_env *E, long long idx, int nverify, int nmut)
 	EC_POINT_free(Q);
 }
 
+/* br_ecdsa_{sign,vrfy}_{raw,asn1}_get_default(): "the preferred implementation ... on the current system";
+ * whatever they return must behave as an ECDSA signer / verifier: deterministic RFC 6979 signatures,
+ * verdicts equal to the reference. Run with the default EC implementation (when it supports the curve)
+ * and with one other implementation. */
+static void
+ecdsa_defaults(ecdsa_env *E, int nsig)
+{
+	curve_t *c = E->c;
+	ecdsa_t dv[2];
+	const impl_t *ims[2];
+	impl_t defimpl;
+	int nims = 0, i, f, j;
+	BIGNUM *d = BN_new(), *k = BN_new(), *r = BN_new(), *s = BN_new(), *s2 = BN_new();
+	EC_POINT *Q = EC_POINT_new(c->g);
+
+	dv[0].name = "default_raw"; dv[0].sign = br_ecdsa_sign_raw_get_default(); dv[0].vrfy = br_ecdsa_vrfy_raw_get_default(); dv[0].asn1 = 0;
+	dv[1].name = "default_asn1"; dv[1].sign = br_ecdsa_sign_asn1_get_default(); dv[1].vrfy = br_ecdsa_vrfy_asn1_get_default(); dv[1].asn1 = 1;
+	for (f = 0; f < 2; f ++) {
+		HASSERT(dv[f].sign != NULL && dv[f].vrfy != NULL, "ecdsa-default-null");
+		vf_distinct("default_ecdsa", "sign_%s=%s", f ? "asn1" : "raw",
+			dv[f].sign == ecdsas[f].sign ? "i15" : dv[f].sign == ecdsas[2 + f].sign ? "i31" : "other");
+		vf_distinct("default_ecdsa", "vrfy_%s=%s", f ? "asn1" : "raw",
+			dv[f].vrfy == ecdsas[f].vrfy ? "i15" : dv[f].vrfy == ecdsas[2 + f].vrfy ? "i31" : "other");
+	}
+	defimpl.name = "ec_default"; defimpl.impl = br_ec_get_default();
+	if (impl_supports(defimpl.impl, c->id)) ims[nims ++] = &defimpl;
+	ims[nims ++] = E->sup[(unsigned)g_seed % (unsigned)E->nsup];
+	for (i = 0; i < nsig; i ++) {
+		unsigned char qb[140], xb[96], hv[64], hv2[64], sig[160], want[160];
+		size_t xl, hl, sl, wl;
+		int h = i % NHASH;
+		rng_case("ecdsa-default", c->name, "", i);
+		rand_scalar(d, c);
+		HASSERT(EC_POINT_mul(c->g, Q, d, NULL, NULL, bctx) == 1, "dG");
+		pt_encode(c, Q, qb);
+		xl = enc_scalar(xb, d, c, (i & 3) == 3 ? 2 : 0);
+		hl = hlen_of[h];
+		vf_bytes(&rng, hv, hl);
+		ref_rfc6979_k(k, c, d, h, hv);
+		HASSERT(ref_sign_k(c, r, s, d, k, hv, hl), "ref-sign-degenerate");
+		HASSERT(ref_verify(c, Q, hv, hl, r, s), "ref-signature-does-not-verify");
+		for (j = 0; j < nims; j ++) for (f = 0; f < 2; f ++) {
+			const impl_t *im = ims[j];
+			sl = call_sign(im, &dv[f], h, hv, c->id, xb, xl, sig, dv[f].asn1 ? c->max_asn1 : c->max_raw);
+			if (dv[f].asn1) wl = ref_der(want, sizeof want, r, s); else wl = enc_raw(want, r, s, c->nlen);
+			vf_stat("cmp_sign", 1);
+			vf_stat("cmp_sign_default", 1);
+			vf_distinct("ecdsa_cfg", "sign %s %s %s %s", dv[f].name, im->name, c->name, hname[h]);
+			if (sl != wl || memcmp(sig, want, wl) != 0) {
+				VIOL(mkkey2("sign-rfc6979", im, &dv[f], c->name), "signature made by the default signer differs from the RFC 6979 deterministic value",
+					"seed=%lld i=%d hash=%s x=%s hv=%s len=%zu got=%s want=%s", g_seed, i, hname[h],
+					vf_hexs(xb, xl), vf_hexs(hv, hl), sl, vf_hexs(sig, sl < 160 ? sl : 160), vf_hexs(want, wl));
+			}
+			/* the valid signature, then s+1 and another hash (verdict of the reference, normally reject) */
+			vf_stat("cmp_vrfy_default", 3);
+			judge_values(E, im, &dv[f], qb, c->ptlen, hv, hl, r, s, 1, i % 3, "valid", i);
+			BN_copy(s2, s); BN_add_word(s2, 1);
+			if (BN_cmp(s2, c->n) >= 0) BN_one(s2);
+			judge_values(E, im, &dv[f], qb, c->ptlen, hv, hl, r, s2, ref_verify(c, Q, hv, hl, r, s2), 0, "s+1", i);
+			memcpy(hv2, hv, hl); hv2[0] ^= 0x40;
+			judge_values(E, im, &dv[f], qb, c->ptlen, hv2, hl, r, s, ref_verify(c, Q, hv2, hl, r, s), 0, "other-hash", i);
+		}
+	}
+	BN_free(d); BN_free(k); BN_free(r); BN_free(s); BN_free(s2);
+	EC_POINT_free(Q);
+}
+
 static void
 run_ecdsa(curve_t *c, long long cases, int nverify, int nmut)
 {
@@ -2058,6 +2283,7 @@ run_ecdsa(curve_t *c, long long cases, int nverify, int nmut)
 		else E.unsup[E.nunsup ++] = &impls[j];
 	}
 	if (g_worker == 0) ecdsa_kat(&E);
+	if (g_worker == 1 % g_nworkers) ecdsa_defaults(&E, g_thorough ? 60 : 6);
 	for (i = 0; i < cases; i ++) {
 		if ((i % g_nworkers) != g_worker) continue;
 		rng_case("ecdsa", c->name, "", i);
@@ -2317,6 +2543,62 @@ run_keygen(long long cases)
 						if (i == 0) vf_sample("{\"op\":\"keygen\",\"impl\":\"%s\",\"curve\":\"%s\",\"x\":\"%s\",\"pub\":\"%s\"}",
 							im->name, cname, vf_hexs(kbuf, kl), vf_hexs(pbuf, pl < 140 ? pl : 140));
 						free(pbuf);
+						/* other encodings of a private key (bearssl_ec.h: "the encoding tolerates extra leading zeros";
+						 * a short key is simply a small integer): minimal length, zero-padded beyond the order length,
+						 * minimal + zeros, and a genuinely short key (1 .. order length - 1 bytes). The mul() entry accepts
+						 * the same shapes; scalars longer than the order are not judged there when rejected, nor here. */
+						{
+							int shape;
+							for (shape = 1; shape <= 4; shape ++) {
+								unsigned char xb[100], ref2[140], *xe, *pb2;
+								size_t xl2, pl2;
+								br_ec_private_key sk2;
+								br_ec_public_key pk2;
+								if (!g_thorough && shape != 1 + (int)((i + j) & 3)) continue;
+								if (ci < 3) {
+									BIGNUM *x2 = BN_dup(x);
+									if (shape == 4) {
+										size_t l = 1 + vf_below(&rng, (uint32_t)curves[ci].nlen - 1);
+										vf_bytes(&rng, xb, l);
+										BN_bin2bn(xb, (int)l, x2);
+										if (BN_is_zero(x2)) BN_one(x2);
+										xl2 = enc_scalar(xb, x2, &curves[ci], (int)(vf_u32(&rng) & 1) ? 1 : 3);
+									} else {
+										xl2 = enc_scalar(xb, x2, &curves[ci], shape);
+									}
+									HASSERT(ref_mul(&curves[ci], ref2, EC_GROUP_get0_generator(curves[ci].g), x2), "pub-ref2");
+									BN_free(x2);
+								} else {
+									unsigned char nine[32];
+									/* Curve25519: short scalar only (longer than 32 bytes is not documented) */
+									if (shape != 4 && g_thorough) continue;
+									xl2 = 1 + vf_below(&rng, 31);
+									vf_bytes(&rng, xb, xl2);
+									memset(nine, 0, 32); nine[0] = 9;
+									ref_c25519(ref2, xb, xl2, nine);
+								}
+								xe = vf_dup(xb, xl2);
+								pb2 = malloc(publen);
+								memset(pb2, 0xA5, publen);
+								sk2.curve = cid; sk2.x = xe; sk2.xlen = xl2;
+								memset(&pk2, 0, sizeof pk2);
+								pl2 = br_ec_compute_pub(im->impl, &pk2, pb2, &sk2);
+								vf_stat("lib_calls", 1);
+								vf_distinct("keygen_cfg", "%s %s pub-shape%d", im->name, cname, ci < 3 ? shape : 4);
+								if (pl2 == 0 && ci < 3 && xl2 > curves[ci].nlen) {
+									vf_stat("unjudged_pubkey_long_scalar_rejected", 1);
+								} else {
+									vf_stat("cmp_pubkey", 1);
+									vf_stat("cmp_pubkey_encoding_shapes", 1);
+									if (pl2 != publen || pk2.q != pb2 || pk2.qlen != pl2 || pk2.curve != cid || memcmp(pb2, ref2, publen) != 0) {
+										VIOL(mkkey("pubkey-value", im, cname), "br_ec_compute_pub differs from x*G of the reference (short / zero-padded private key encoding)",
+											"seed=%lld i=%lld shape=%d x=%s ret=%zu got=%s want=%s", g_seed, i, shape, vf_hexs(xb, xl2), pl2,
+											vf_hexs(pb2, publen), vf_hexs(ref2, publen));
+									}
+								}
+								free(xe); free(pb2);
+							}
+						}
 					}
 				}
 				free(kbuf);
